@@ -433,6 +433,26 @@ func checkC16(r *Result) {
 		sort.Strings(idx)
 		r.check(len(idx) == 0, "SLOTS", "(*x/bridge/types.BridgeValsetSignatures).SetSignature # slot index bounds-guarded", P.Pos(bs.Pos()), fmt.Sprintf("%d guarded index sites, unguarded: %v", gd, idx))
 	}
+	// a delivered signature is written into its checkpoint's slots on every success path (only the very
+	// first checkpoint needs none): a success that drops the signature leaves a step of the chain unsignable
+	if ss := need("(x/bridge/keeper.Keeper).SetBridgeValsetSignature"); ss != nil {
+		tmS := NewTermer()
+		ps := AnalyzePaths(ss, []Atom{
+			{Name: "first", Cond: func(rel *Term) (bool, bool) {
+				return rel.Op == "==" && len(rel.Args) == 2 && strings.HasSuffix(rel.Args[0].Op, "CheckpointIdx.Index") && rel.Args[1].Op == "const:0", true
+			}},
+			{Name: "stored", Event: P.CallEvent(descIs("coll:x/bridge/keeper.Keeper.BridgeValsetSignaturesMap.Set"), T)},
+		})
+		_ = tmS
+		okAll, n := true, 0
+		for _, ret := range SuccessReturns(ss) {
+			n++
+			if bad := ps.Require(ret, func(v map[string]bool) bool { return v["stored"] || v["first"] }); len(bad) > 0 {
+				okAll = false
+			}
+		}
+		r.check(okAll && n > 0 && len(ps.Matched["first"]) > 0, "SLOTS", "(x/bridge/keeper.Keeper).SetBridgeValsetSignature # every success return stored the signature, except for the first checkpoint", P.Pos(ss.Pos()), fmt.Sprintf("%d success returns", n))
+	}
 	r.minCount("MEMBERSHIP", 3)
 	r.minCount("UPDATE-RULE", 5)
 	r.minCount("COHORT", 7)
